@@ -169,6 +169,12 @@ def run(ctx, out, tier):
         except Exception as e:
             variants = None
             out.viol("C18.result", "C18.result|model", "-", "mlua::Value variant order could not be read: %s" % e)
+        # the script's result is received as the dynamically typed `mlua::Value`: any other requested
+        # type makes mlua convert (numbers become strings, nil becomes a default, ...)
+        for bi, t in runner.calls():
+            if callee_matches(t, r"^mlua::Function::(call_async|call)$") and (t.get("targs") or [""])[0] != "mlua::Value":
+                out.viol("C18.result", "C18.result|coerced|%s" % (t.get("targs") or ["?"])[0], ctx.where(runner, t["span"]),
+                         "`validate` is called with the result type `%s`: mlua then coerces the returned value (a number becomes a string and is reported as a diagnostic) instead of handing over the value as returned; only nil and strings may be accepted" % (t.get("targs") or ["?"])[0])
         if variants:
             E = ctx.expr(runner)
             for bi, j, s in runner.assigns():
